@@ -15,7 +15,10 @@ ASSUMPTIONS = []
 
 def cases(rng, tier):
     n = 300 if tier == "quick" else 5000
-    return family_cases(rng, [("range", G.gen_range), ("provisional", G.gen_provisional), ("layout", G.gen_layout), ("shrink", G.gen_shrink)], n, faults=0.1)
+    cs = family_cases(rng, [("range", G.gen_range), ("provisional", G.gen_provisional), ("layout", G.gen_layout), ("shrink", G.gen_shrink)], n, faults=0.1)
+    # differences / sums around 2^63, 2^64, 2^128: a negative or too large operand must not come out as a wrapped machine word
+    cs += family_cases(rng, [("exprs-wide", G.gen_exprs_wide)], n // 4, faults=0.0)
+    return cs
 
 
 def nontrivial(case, reply):
